@@ -152,3 +152,15 @@ Example C19_vary_star_does_not_grow :
   let r := {| r_id := bs "k#1"; r_vary := bs "*"; r_resolved := [(bs "*", [])]; r_recv := 0 |} in
   List.length (unique_refs (repeat (Some r) 1000)) = 1%nat.
 Proof. vm_compute. reflexivity. Qed.
+
+(* the effect trees this property is stated about — which store / origin / clock operations happen, in which order, under
+   which conditions, and what every path returns — are those /verif/translate derives from the Go source on this run
+   (Generated/SrcEffects.v; equal up to the extensional equality of continuations, ProgEq.peq, which [run] respects) *)
+From HC.Generated Require Import SrcEffects.
+From HC.Proofs Require Import ProgEq TieEffects.
+Theorem C19_source_effects :
+  (forall q, peq (src_round_trip q) (round_trip q)) /\
+  (forall ctx q rep, peq (src_handle_validation_response ctx q rep) (handle_validation_response ctx q rep)) /\
+  (forall q e k f cc, peq (src_background_revalidate q e k f cc) (background_revalidate q e k f cc)).
+Proof. repeat split; [exact tie_round_trip|exact tie_handle_validation_response|exact tie_background_revalidate]. Qed.
+Print Assumptions C19_source_effects.
